@@ -7,6 +7,7 @@
   the harness: the class of every value token of the real tree of the printed text).
 -/
 import Mappy.Props.C01
+import Mappy.Model.Classify
 import Mappy.Lemmas.Assoc
 
 namespace Mappy.RoundTrip
@@ -460,10 +461,6 @@ theorem C01_level_roundtrip (cfg : Cfg) (S Rp : List Str) (hp : cfg.pos = false)
   rw [hf]
   simp only [finishState, hpd, hc, Bool.false_eq_true, if_false, hd]
   simp [initState, hp, hc]
-
-/-- the tree Lark builds for `TYPE <children> END` -/
-def blockTree (key : Tok) (children : List R) : R :=
-  .tree s%"composite" none [.tree s%"composite_type" none [.tok key], .tree s%"composite_body" none children]
 
 /-- **C01_tree_step** — the inductive step of the whole-document round trip, on real tree shapes: if the children of a block's
 tree are transformed (bottom-up, `mainTL`) into items that are, in dictionary order, the entries of `d`, then the block's
